@@ -17,13 +17,16 @@ inductive Step (R : Type) where
   | trace (i : Nat) (in0 in1 : List Nat)
   | addLeg (i : Nat) (axis : Nat) (sl : Int) (t : Charge)
   | removeLeg (i : Nat) (axis : Nat)
+  | broadcast (d i : Nat) (axis : Nat)
+  | applyMask (m i : Nat) (axis : Nat)
+  | diag (i : Nat)
 
 def getVal (vals : List (Tensor R)) (i : Nat) : Except Err (Tensor R) :=
   match vals[i]? with
   | some t => .ok t
   | none => .error .other
 
-def Step.run [Zero R] [Add R] [Mul R] [Neg R] [Conj R] (vals : List (Tensor R)) : Step R → Except Err (Tensor R)
+def Step.run [Zero R] [Add R] [Mul R] [Neg R] [Conj R] [DecidableEq R] (vals : List (Tensor R)) : Step R → Except Err (Tensor R)
   | .add i j => do let a ← getVal vals i; let b ← getVal vals j; YModel.add a b
   | .sub i j => do let a ← getVal vals i; let b ← getVal vals j; YModel.sub a b
   | .smul c i => do let a ← getVal vals i; pure (YModel.smul c a)
@@ -36,9 +39,12 @@ def Step.run [Zero R] [Add R] [Mul R] [Neg R] [Conj R] (vals : List (Tensor R)) 
   | .trace i in0 in1 => do let a ← getVal vals i; YModel.trace a in0 in1
   | .addLeg i axis sl t => do let a ← getVal vals i; YModel.addLeg a axis sl t
   | .removeLeg i axis => do let a ← getVal vals i; YModel.removeLeg a axis
+  | .broadcast d i axis => do let dd ← getVal vals d; let a ← getVal vals i; YModel.broadcast dd a axis
+  | .applyMask m i axis => do let mm ← getVal vals m; let a ← getVal vals i; YModel.applyMask mm a axis
+  | .diag i => do let a ← getVal vals i; YModel.diag a
 
 /-- run a program: every step appends its result to the list of values; the first rejected step aborts -/
-def runProg [Zero R] [Add R] [Mul R] [Neg R] [Conj R] (vals : List (Tensor R)) : List (Step R) → Except Err (List (Tensor R))
+def runProg [Zero R] [Add R] [Mul R] [Neg R] [Conj R] [DecidableEq R] (vals : List (Tensor R)) : List (Step R) → Except Err (List (Tensor R))
   | [] => .ok vals
   | st :: rest =>
     match st.run vals with
